@@ -469,5 +469,5 @@ Theorem worker_graph_is_driver_graph : forall g g' inv mc init st roots,
 Proof.
   intros g g' inv mc init st roots Hwf Hclean Hsame Hc.
   unfold transported_env. rewrite code_transport_freezes.
-  exact (worker_agrees_gen g g' inv mc result_shuffle_fixed init st roots Hwf Hclean Hsame Hc).
+  exact (worker_agrees_gen g g' inv mc code_config init st roots Hwf Hclean Hsame Hc).
 Qed.
